@@ -165,6 +165,9 @@ func Solo(shape int, filter, payload string) []Item {
 }
 
 func soloRun(shape int, filter, payload string) []Item {
+	// the yield handler of a rig that may be active ignores everything while this resolver runs
+	soloBusy.Store(true)
+	defer soloBusy.Store(false)
 	bus := newBus()
 	clock := &Clock{}
 	rep := &Reporter{bus: bus}
